@@ -461,7 +461,12 @@ namespace Pistache
 
     std::ostream& operator<<(std::ostream& os, const Address& address)
     {
-        os << address.host() << ":" << address.port();
+        // an IPv6 literal needs brackets, or its last group reads as the port
+        if (address.family() == AF_INET6)
+            os << "[" << address.host() << "]";
+        else
+            os << address.host();
+        os << ":" << address.port();
         return os;
     }
 
